@@ -784,6 +784,24 @@ Definition read_and_start (data : list Z) : res started :=
   | Fail e s => Fail e s
   end.
 
+(* ------------------------------------------------ whole-stream marker level *)
+(* After an SOS the entropy decoder consumes some bytes (possibly none, possibly up to
+   the next marker, possibly resynchronising over restart markers) and the marker reader
+   resumes at a later position.  ec abstracts that consumer: ANY function that only moves
+   forward in the input.  decode_stream counts the scans until EOI. *)
+Fixpoint decode_stream (ec : hdr -> io -> io) (fuel : nat) (h : hdr) (nsos : Z) (s : io) : res (hdr * Z) :=
+  match fuel with
+  | O => Fail E_OUT_OF_FUEL s
+  | S k =>
+      match read_markers (marker_fuel s) h s with
+      | Done (ReachedSOS h') s' => decode_stream ec k h' (nsos + 1) (ec h' s')
+      | Done (ReachedEOI h') s' => Done (h', nsos) s'
+      | Done (Continue _) s' => Fail E_OUT_OF_FUEL s'
+      | Susp => Susp
+      | Fail e s' => Fail e s'
+      end
+  end.
+
 (* ------------------------------------------ sequential Huffman block decoding *)
 (* decode_mcu_slow, one block: DC symbol + extra bits, then
      for (k = 1; k < DCTSIZE2; k++) { s = HUFF_DECODE; r = s >> 4; s &= 15;
